@@ -315,6 +315,8 @@ def is_zero(x):
         return x.is_zero()
     if isinstance(x, (Poly, Rat, Lin)):
         return x.is_zero()
+    if hasattr(x, "is_zero"):
+        return x.is_zero()
     raise AlgError(f"is_zero of {type(x).__name__}")
 
 
@@ -483,6 +485,13 @@ class Poly:
                 c = self.const_value()
                 if isinstance(n, Fraction) and n == Q(1, 2):
                     return Poly.const(MQ.sqrt(c))
+            if isinstance(n, Fraction) and len(self.t) == 1:
+                (m, c), = self.t.items()
+                if c == 1 and all((e * n).denominator == 1 for _, e in m):
+                    mm = tuple((v, int(e * n)) for v, e in m)
+                    if all(e > 0 for _, e in mm):
+                        return Poly({mm: Q(1)})
+                    return Rat(Poly.const(1), Poly({tuple((v, -e) for v, e in mm): Q(1)}))
             raise AlgError(f"Poly ** {n!r} unsupported")
         if n < 0:
             return Rat(Poly.const(1), self ** (-n))
